@@ -8,6 +8,7 @@ package main
 
 import (
 	"fmt"
+	"go/ast"
 	"go/constant"
 	"go/token"
 	"go/types"
@@ -43,10 +44,16 @@ type State struct {
 	trace  []string // branch decisions, for naming/debugging
 	visits map[*ssa.BasicBlock]int
 	dead   bool
+	neq     map[string]bool // syntactically known disequalities "a|b"
+	frames  map[string]*frameInfo // havoc array symbol -> frame fact (see sel)
+	freshAt map[string]int      // fresh object symbol -> allocation serial
+	serial  int
+	eqc     map[string]string // term -> simpler equal term (constants, parameters) known from assumptions
+	collect *[]Term // when set, assumptions are collected here instead of the path condition (quantifier bodies)
 }
 
 func (s *State) clone() *State {
-	n := &State{pc: s.pc[:len(s.pc):len(s.pc)], pcSet: s.pcSet, dead: s.dead}
+	n := &State{pc: s.pc[:len(s.pc):len(s.pc)], pcSet: s.pcSet, dead: s.dead, neq: s.neq, eqc: s.eqc, frames: s.frames, freshAt: s.freshAt, serial: s.serial}
 	n.heap = make(map[string]Term, len(s.heap))
 	for k, v := range s.heap {
 		n.heap[k] = v
@@ -152,6 +159,15 @@ func (ex *Exec) unsupported(format string, a ...any) {
 func (ex *Exec) emit(s *State, kind, name string, goal Term, pos token.Pos, note string) {
 	if s.dead {
 		return
+	}
+	// one query per conjunct: smaller queries, and a failure names the clause that broke
+	if kind == "ensures" || kind == "invariant" || kind == "requires" || kind == "pool" {
+		if parts := conjuncts(goal); len(parts) > 1 {
+			for i, p := range parts {
+				ex.emit(s, kind, fmt.Sprintf("%s.%d", name, i+1), p, pos, note)
+			}
+			return
+		}
 	}
 	if goal.IsTrue() && kind != "ensures" && kind != "rel" && kind != "chain" && kind != "invariant" {
 		return
@@ -272,7 +288,7 @@ func (ex *Exec) Run() (err error) {
 			s.ghost[l.Label] = v
 		}
 		for _, r := range ex.contract.Requires {
-			s.assume(env.evalBool(r.Expr))
+			s.assume(env.evalAssume(r.Expr))
 		}
 	}
 	fr.entry = s.clone()
@@ -343,7 +359,7 @@ func (ex *Exec) chains(fr *Frame, s *State, args []Value, results []Value) {
 			if len(res2) == 1 {
 				env2.vars["then"] = res2[0]
 			}
-			g := env2.evalBool(ch.Expr)
+			g := env2.evalProve(ch.Expr)
 			ex.emit(rs, "chain", fmt.Sprintf("%s/%s/%s", ex.layer, ex.fnName, ch.Label), g, fr.fn.Pos(), ch.Src)
 		})
 	}
@@ -384,13 +400,13 @@ func (ex *Exec) rels(fr *Frame, s *State, args []Value, results []Value) {
 		env0.vars[p.Name()] = args2[i]
 	}
 	for _, r := range ex.contract.Requires {
-		s2.assume(env0.evalBool(r.Expr))
+		s2.assume(env0.evalAssume(r.Expr))
 	}
 	ex.runInline(s2, fr.fn, args2, fr.entry, func(rs *State, res2 []Value) {
 		b := mk(args2, res2)
 		env := &SpecEnv{ex: ex, cur: rs, old: fr.entry, vars: map[string]Value{"a": a, "b": b}, fn: fr.fn}
 		for _, r := range ex.contract.Rels {
-			g := env.evalBool(r.Expr)
+			g := env.evalProve(r.Expr)
 			ex.emit(rs, "rel", fmt.Sprintf("%s/%s/%s", ex.layer, ex.fnName, r.Label), g, fr.fn.Pos(), r.Src)
 		}
 	})
@@ -406,7 +422,7 @@ func (ex *Exec) checkPost(fr *Frame, s *State, results []Value, retIdx int) {
 		if label == "" {
 			label = fmt.Sprintf("ensures#%d", i+1)
 		}
-		g := env.evalBool(e.Expr)
+		g := env.evalProve(e.Expr)
 		ex.emit(s, "ensures", fmt.Sprintf("%s/%s/%s", ex.layer, ex.fnName, label), g, fr.fn.Pos(), fmt.Sprintf("return path %d: %s", retIdx, e.Src))
 	}
 	if ex.contract.HasAssigns {
@@ -414,6 +430,15 @@ func (ex *Exec) checkPost(fr *Frame, s *State, results []Value, retIdx int) {
 		allowed := map[string]bool{}
 		for _, a := range ex.contract.Assigns {
 			allowed[a] = true
+			if strings.HasPrefix(a, "*") {
+				for i, p := range fr.fn.Params {
+					if p.Name() == a[1:] {
+						if pv, ok := fr.args[i].(PtrV); ok && pv.Kind == PField {
+							allowed[pv.Field] = true
+						}
+					}
+				}
+			}
 		}
 		var names []string
 		for n := range s.heap {
@@ -663,8 +688,10 @@ func (ex *Exec) jump(s *State, fr *Frame, from, to *ssa.BasicBlock) {
 	ex.runBlock(s, fr, to, 0)
 }
 
+// obName names a safety obligation by function, kind and the source text of the
+// line it stems from (stable under edits elsewhere in the file, unlike line numbers).
 func (ex *Exec) obName(fr *Frame, what string, in ssa.Instruction) string {
-	return fmt.Sprintf("safety/%s/%s@%s", normName(fr.fn.RelString(ex.prog.SSA.Pkg)), what, ex.prog.Pos(in.Pos()))
+	return fmt.Sprintf("safety/%s/%s@%s", normName(fr.fn.RelString(ex.prog.SSA.Pkg)), what, ex.prog.SrcAnchor(in.Pos()))
 }
 
 // ---------------------------------------------------------------------------
@@ -681,7 +708,7 @@ func (ex *Exec) atLoopHead(s *State, fr *Frame, b *ssa.BasicBlock, l *Loop) bool
 		c = ex.contract
 	}
 	if c != nil {
-		spec = c.Loops[l.Ordinal]
+		spec = ex.matchLoop(fr.fn, c, l)
 	}
 	fnName := normName(fr.fn.RelString(ex.prog.SSA.Pkg))
 	if spec == nil {
@@ -704,7 +731,7 @@ func (ex *Exec) atLoopHead(s *State, fr *Frame, b *ssa.BasicBlock, l *Loop) bool
 			if label == "" {
 				label = fmt.Sprintf("inv#%d", i+1)
 			}
-			g := env.evalBool(inv.Expr)
+			g := env.evalProve(inv.Expr)
 			ex.emit(st, "invariant", fmt.Sprintf("%s/%s/loop%d/%s/%s", ex.layer, fnName, l.Ordinal, label, phase), g, l.Pos, inv.Src)
 		}
 	}
@@ -774,7 +801,7 @@ func (ex *Exec) atLoopHead(s *State, fr *Frame, b *ssa.BasicBlock, l *Loop) bool
 	}
 	env := &SpecEnv{ex: ex, cur: s, old: ex.entryOf(fr), vars: map[string]Value{}, fn: fr.fn, fr: fr}
 	for _, inv := range spec.Invariants {
-		s.assume(env.evalBool(inv.Expr))
+		s.assume(env.evalAssume(inv.Expr))
 	}
 	if spec.Decreases != nil {
 		d := env.evalInt(spec.Decreases.Expr)
@@ -1184,4 +1211,101 @@ func (ex *Exec) tryIfConvert(s *State, fr *Frame, b *ssa.BasicBlock, c Term) boo
 	fr.prev = predT
 	ex.runBlock(s, fr, join, n)
 	return true
+}
+
+// conjuncts flattens a top-level conjunction.
+func conjuncts(t Term) []Term {
+	if !strings.HasPrefix(t.S, "(and ") {
+		return []Term{t}
+	}
+	args := splitArgs(t.S)
+	var out []Term
+	for _, a := range args[1:] {
+		out = append(out, conjuncts(Term{a, SBool})...)
+	}
+	return out
+}
+
+// matchLoop finds the annotation of loop l: by controlling-variable name when the
+// annotation gives one (robust against loops being added/removed), else by ordinal.
+func (ex *Exec) matchLoop(fn *ssa.Function, c *Contract, l *Loop) *LoopSpec {
+	li := ex.prog.LoopsOf(fn)
+	hasVar := func(lp *Loop, v string) bool {
+		for _, in := range lp.Head.Instrs {
+			phi, ok := in.(*ssa.Phi)
+			if !ok {
+				break
+			}
+			if phi.Comment == v {
+				return true
+			}
+		}
+		return false
+	}
+	// named specs, in ordinal order, claim the first still-unclaimed loop that has the variable
+	var ords []int
+	for o := range c.Loops {
+		ords = append(ords, o)
+	}
+	sort.Ints(ords)
+	claimed := map[*Loop]*LoopSpec{}
+	used := map[*LoopSpec]bool{}
+	for _, o := range ords {
+		sp := c.Loops[o]
+		if sp.Var == "" {
+			continue
+		}
+		for _, lp := range li.Loops {
+			if claimed[lp] == nil && hasVar(lp, sp.Var) {
+				claimed[lp] = sp
+				used[sp] = true
+				break
+			}
+		}
+	}
+	if sp := claimed[l]; sp != nil {
+		return sp
+	}
+	if sp := c.Loops[l.Ordinal]; sp != nil && sp.Var == "" {
+		return sp
+	}
+	return nil
+}
+
+// frameInfo: the array named by a havoc symbol agrees with 'old' on every object that was
+// allocated (and non-null) when the havoc happened and is not among 'except'.
+type frameInfo struct {
+	old    Term
+	except []string
+	serial int  // allocation serial at the time of the havoc (objects with a lower serial existed)
+	entry  bool // frame is relative to the function entry state
+}
+
+func (s *State) addFrame(sym string, fi *frameInfo) {
+	n := make(map[string]*frameInfo, len(s.frames)+1)
+	for k, v := range s.frames {
+		n[k] = v
+	}
+	n[sym] = fi
+	s.frames = n
+}
+
+// frameArgs finds frame(...) conjuncts of a clause and returns their argument expressions.
+func frameArgs(x ast.Expr) ([]ast.Expr, bool) {
+	switch n := x.(type) {
+	case *ast.ParenExpr:
+		return frameArgs(n.X)
+	case *ast.BinaryExpr:
+		if n.Op == token.LAND {
+			if a, ok := frameArgs(n.X); ok {
+				return a, true
+			}
+			return frameArgs(n.Y)
+		}
+	case *ast.CallExpr:
+		if id, ok := n.Fun.(*ast.Ident); ok && id.Name == "frame" {
+			return n.Args, true
+		}
+	}
+	return nil, false
 }
